@@ -176,3 +176,123 @@ Theorem psort_spec : forall A (l : list (Z * A)),
   Permutation (psort l) l /\ StronglySorted desc (psort l) /\
   forall p, filter (fun y => (fst y =? p)%Z) (psort l) = filter (fun y => (fst y =? p)%Z) l.
 Proof. intros A l. exact (conj (psort_perm A l) (conj (psort_sorted A l) (psort_stable A l))). Qed.
+
+(* ------------------------------------------------------------------ test-name arguments *)
+(* the first-match loop with `break` (mtest.py:2034-2041) yields exactly the tests matched
+   by SOME argument, each once, in order *)
+Lemma first_match_spec : forall t pats,
+  first_match t pats = if existsb (arg_matches t) pats then [t] else [].
+Proof.
+  induction pats as [|p r IH]; simpl; [reflexivity|].
+  destruct (arg_matches t p); simpl; [reflexivity | exact IH].
+Qed.
+
+Theorem tests_from_args_filter : forall pats ts,
+  tests_from_args pats ts = filter (fun t => existsb (arg_matches t) pats) ts.
+Proof.
+  intros pats ts. unfold tests_from_args. induction ts as [|t ts IH]; simpl; [reflexivity|].
+  rewrite first_match_spec, IH. destruct (existsb (arg_matches t) pats); reflexivity.
+Qed.
+
+Inductive subseq {A : Type} : list A -> list A -> Prop :=
+| sub_nil : subseq [] []
+| sub_skip : forall x l l', subseq l l' -> subseq l (x :: l')
+| sub_keep : forall x l l', subseq l l' -> subseq (x :: l) (x :: l').
+
+Lemma subseq_refl : forall A (l : list A), subseq l l.
+Proof. induction l; constructor; assumption. Qed.
+Lemma subseq_nil : forall A (l : list A), subseq [] l.
+Proof. induction l; constructor; assumption. Qed.
+Lemma subseq_trans : forall A (a b c : list A), subseq a b -> subseq b c -> subseq a c.
+Proof.
+  intros A a b c H1 H2. revert a H1. induction H2; intros a H1.
+  - exact H1.
+  - constructor. apply IHsubseq. exact H1.
+  - inversion H1; subst; [constructor; apply IHsubseq; assumption | constructor; apply IHsubseq; assumption].
+Qed.
+Lemma subseq_filter : forall A (f : A -> bool) l, subseq (filter f l) l.
+Proof. induction l as [|x l IH]; simpl; [constructor|]. destruct (f x); constructor; assumption. Qed.
+Lemma subseq_stride : forall A n (l : list A) c, subseq (stride n c l) l.
+Proof.
+  induction l as [|x l IH]; intros c; simpl; [constructor|].
+  destruct c; constructor; apply IH.
+Qed.
+Lemma subseq_In : forall A (l l' : list A) x, subseq l l' -> In x l -> In x l'.
+Proof. intros A l l' x H. induction H; simpl; intros Hin; [assumption | right; auto | destruct Hin; [left; assumption | right; auto]]. Qed.
+Lemma subseq_map : forall A B (f : A -> B) l l', subseq l l' -> subseq (map f l) (map f l').
+Proof. intros A B f l l' H. induction H; simpl; constructor; assumption. Qed.
+Lemma subseq_NoDup : forall A (l l' : list A), subseq l l' -> NoDup l' -> NoDup l.
+Proof.
+  intros A l l' H. induction H; intros ND.
+  - constructor.
+  - inversion ND. auto.
+  - inversion ND as [|? ? Hn ND']. subst. constructor; [|auto].
+    intros Hin. apply Hn. eapply subseq_In; eassumption.
+Qed.
+
+(* whatever the options: the selection is a subsequence of the defined tests (order kept,
+   nothing invented, nothing repeated) *)
+Theorem get_tests_subseq : forall o tests l, get_tests o tests = SelOk l -> subseq l tests.
+Proof.
+  intros o tests l H. unfold get_tests in H. destruct tests as [|t ts].
+  - inversion H. constructor.
+  - unfold pre_slice in H.
+    set (t1 := filter (test_suitable o) (t :: ts)) in *.
+    destruct (negb (forallb (fun p => existsb (fun t0 => arg_matches t0 p) t1) (map arg_pattern (o_args o)))); [discriminate|].
+    assert (S2 : subseq (match map arg_pattern (o_args o) with [] => t1 | _ :: _ => tests_from_args (map arg_pattern (o_args o)) t1 end) (t :: ts)).
+    { destruct (map arg_pattern (o_args o)) as [|p ps].
+      - apply subseq_filter.
+      - rewrite tests_from_args_filter. eapply subseq_trans; [apply subseq_filter | apply subseq_filter]. }
+    unfold apply_slice in H. destruct (o_slice o) as [[i n]|].
+    + match type of H with (if ?b then _ else _) = _ => destruct b end; [discriminate|].
+      inversion H. subst. eapply subseq_trans; [apply subseq_stride | exact S2].
+    + inversion H. subst. exact S2.
+Qed.
+
+(* "starts every selected test exactly once": a test matched by several name arguments (or by a
+   name argument and a suite) is selected once — tests are identified by (project, name) *)
+Definition tkey (t : tdef) : str * str := (t_project t, t_name t).
+Theorem get_tests_no_duplicates : forall o tests l,
+  NoDup (map tkey tests) -> get_tests o tests = SelOk l -> NoDup (map tkey l).
+Proof.
+  intros o tests l ND H. eapply subseq_NoDup; [apply subseq_map; eapply get_tests_subseq; eassumption | exact ND].
+Qed.
+
+(* without --slice the selection is exactly: suitable (suite / exclude filters) and, when name
+   arguments are given, matched by at least one of them *)
+Theorem get_tests_exact : forall o tests l, get_tests (no_slice o) tests = SelOk l ->
+  forall t, In t l <->
+    In t tests /\ test_suitable o t = true /\
+    (o_args o = [] \/ exists a, In a (o_args o) /\ arg_matches t (arg_pattern a) = true).
+Proof.
+  intros o tests l H t. unfold get_tests in H. destruct tests as [|t0 ts].
+  - inversion H. simpl. tauto.
+  - unfold pre_slice in H. change (test_suitable (no_slice o)) with (test_suitable o) in H.
+    change (o_args (no_slice o)) with (o_args o) in H.
+    set (t1 := filter (test_suitable o) (t0 :: ts)) in *.
+    destruct (negb (forallb (fun p => existsb (fun t0 => arg_matches t0 p) t1) (map arg_pattern (o_args o)))); [discriminate|].
+    simpl in H. inversion H as [E]. clear H.
+    assert (T1 : In t t1 <-> In t (t0 :: ts) /\ test_suitable o t = true) by (unfold t1; apply filter_In).
+    destruct (o_args o) as [|a r] eqn:Ea.
+    + simpl. rewrite T1. split; [intros [A B]; auto | intros [A [B _]]; auto].
+    + cbn [map]. rewrite tests_from_args_filter, filter_In, T1, existsb_exists. split.
+      * intros [[A B] [p [Hp Hm]]]. change (arg_pattern a :: map arg_pattern r) with (map arg_pattern (a :: r)) in Hp.
+        apply in_map_iff in Hp. destruct Hp as [a' [<- Ha']].
+        repeat split; try assumption. right. exists a'. auto.
+      * intros [A [B [C|[a' [Ha' Hm]]]]]; [discriminate|]. split; [auto|].
+        exists (arg_pattern a'). split; [change (arg_pattern a :: map arg_pattern r) with (map arg_pattern (a :: r)); apply in_map; assumption | assumption].
+Qed.
+
+(* glob matching: `*` matches everything, a pattern without `*` and `?` only itself *)
+Lemma gmatch_star : forall s, gmatch star s = true.
+Proof. unfold star. simpl. induction s as [|c s IH]; [reflexivity|]. simpl. exact IH. Qed.
+Fixpoint plain (p : str) : bool :=
+  match p with [] => true | c :: r => negb (c =? 42)%N && negb (c =? 63)%N && plain r end.
+Lemma gmatch_plain : forall p s, plain p = true -> gmatch p s = str_eqb p s.
+Proof.
+  induction p as [|c p IH]; intros s H; simpl in *.
+  - destruct s; reflexivity.
+  - apply andb_prop in H. destruct H as [H Hp]. apply andb_prop in H. destruct H as [H1 H2].
+    apply negb_true_iff in H1, H2. rewrite H1. destruct s as [|d s]; [reflexivity|].
+    rewrite H2. simpl. rewrite IH by assumption. reflexivity.
+Qed.
